@@ -25,7 +25,9 @@
    P layer: invariants at the end.                                            *)
 EXTENDS Naturals, Sequences, FiniteSets, TLC, Json
 
-CONSTANTS MaxEdit, MaxInv, MaxKill, MaxFail, Weak, GenDepth
+CONSTANTS MaxEdit, MaxInv, MaxKill, MaxFail, Weak, GenDepth,
+          Flags       \* command line variants an invocation may use: subset of {"plain", "bo", "force"}
+                      \*   plain  bob dev app            bo  bob dev -b app (--build-only)       force  bob dev -f app
 
 Pkg == {"app", "lib"}
 S(p) == <<"src", p>>
@@ -120,7 +122,11 @@ Init ==
 Cur == Head(todo)
 CurK == Cur[1]
 CurP == Cur[2]
-Running(k) == mode = "run" /\ todo # <<>> /\ CurK = k
+\* mode = "idle" between invocations, otherwise the flag of the running invocation
+IsRun == mode # "idle"
+Running(k) == IsRun /\ todo # <<>> /\ CurK = k
+BuildOnly == mode = "bo"
+Forced == mode = "force"
 WS == UNCHANGED <<ex, cont>>
 ST == UNCHANGED <<res, inp, dst, vid>>
 Flow == UNCHANGED <<mode, todo>>
@@ -151,21 +157,26 @@ Edit ==
 
 Begin ==
   /\ mode = "idle" /\ ninv < MaxInv
-  /\ mode' = "run" /\ todo' = Steps /\ pc' = "start" /\ created' = FALSE
+  /\ \E f \in Flags :
+       /\ mode' = f
+       \* only a plain invocation directly after a successful one is judged for idempotence
+       /\ quiet' = (quiet /\ f = "plain")
+       /\ Hist([a |-> "Begin", proj |-> proj, quiet |-> (quiet /\ f = "plain"), flag |-> f])
+  /\ todo' = Steps /\ pc' = "start" /\ created' = FALSE
   /\ ninv' = ninv + 1 /\ lastOk' = FALSE
-  /\ Hist([a |-> "Begin", proj |-> proj, quiet |-> quiet])
-  /\ UNCHANGED <<proj, nedit, ex, cont, res, inp, dst, vid, nkill, nfail, quiet, ranInQuiet>>
+  /\ UNCHANGED <<proj, nedit, ex, cont, res, inp, dst, vid, nkill, nfail, ranInQuiet>>
 
 \* all steps done: the invocation completed successfully
 End ==
-  /\ mode = "run" /\ todo = <<>>
-  /\ mode' = "idle" /\ lastOk' = TRUE /\ quiet' = TRUE
+  /\ IsRun /\ todo = <<>>
+  \* a --build-only invocation does not promise an up-to-date result (checkouts are not refreshed)
+  /\ mode' = "idle" /\ lastOk' = ~BuildOnly /\ quiet' = ~BuildOnly
   /\ Hist([a |-> "End"])
   /\ UNCHANGED <<proj, nedit, ex, cont, res, inp, dst, vid, todo, pc, created, ninv, nkill, nfail, ranInQuiet>>
 
 \* kill -9 between any two micro-operations (the stale lock is removed by the user)
 Kill ==
-  /\ mode = "run" /\ todo # <<>> /\ nkill < MaxKill
+  /\ IsRun /\ todo # <<>> /\ nkill < MaxKill
   /\ mode' = "idle" /\ todo' = <<>> /\ pc' = "start" /\ nkill' = nkill + 1
   /\ quiet' = FALSE /\ lastOk' = FALSE
   /\ Hist([a |-> "Kill", k |-> CurK, p |-> CurP, at |-> pc])
@@ -224,8 +235,22 @@ CoStart ==
 \* 1226-1240: initial checkout / indeterministic / recipe changed (also: previous run did not complete)
 CoReason ==
   /\ Running("co") /\ pc = "reason"
-  /\ pc' = IF ~Deterministic(CurP) \/ dst[S(CurP)] # ScmFull(CurP) THEN "store" ELSE "setres"
-  /\ Flow /\ WS /\ ST /\ Knobs /\ Ctr /\ NoHist /\ UNCHANGED created
+  /\ IF BuildOnly /\ res[S(CurP)] # NONE
+       \* 1199-1219 --build-only and a result is recorded: no checkout; a local indeterministic SCM (import)
+       \* is updated in place (mayUpdate), a checkoutScript is never re-run ("recipe changed but skipped")
+       THEN pc' \in (IF Deterministic(CurP) THEN {"setres"} ELSE {"setres", "boupdate"})
+       ELSE pc' = IF Forced \/ ~Deterministic(CurP) \/ dst[S(CurP)] # ScmFull(CurP) THEN "store" ELSE "setres"
+  \* weakening BoSkipStoresState: the skipped checkout nevertheless records the new recipe state
+  /\ dst' = IF "BoSkipStoresState" \in Weak /\ BuildOnly /\ res[S(CurP)] # NONE /\ Deterministic(CurP)
+            THEN [dst EXCEPT ![S(CurP)] = ScmFull(CurP)] ELSE dst
+  /\ Flow /\ WS /\ UNCHANGED <<res, inp, vid>> /\ Knobs /\ Ctr /\ NoHist /\ UNCHANGED created
+
+\* 1203-1210 UPDATE of the import in build-only mode: files are copied, only the build-only part of the
+\* directory state is stored
+CoBoUpdate ==
+  /\ Running("co") /\ pc = "boupdate"
+  /\ cont' = [cont EXCEPT ![S(CurP)] = IF "ImportKeepsOld" \in Weak /\ @ # EMPTY THEN @ ELSE CleanS(CurP)]
+  /\ pc' = "setres" /\ Flow /\ UNCHANGED ex /\ ST /\ Knobs /\ Ctr /\ NoHist /\ UNCHANGED created
 
 \* 1309: store the SCM state without the script state so that a failing step runs again
 CoStore ==
@@ -310,14 +335,14 @@ BuReset ==
 \* 1395-1405 unchanged input -> skipped, rehash
 BuSkip ==
   /\ Running("bu") /\ pc = "check"
-  /\ inp[B(CurP)] = BuildInputs(CurP)
+  /\ inp[B(CurP)] = BuildInputs(CurP) /\ ~Forced
   /\ res' = [res EXCEPT ![B(CurP)] = H(cont[B(CurP)])]
   /\ NextStep /\ WS /\ UNCHANGED <<inp, dst, vid>> /\ Knobs /\ Ctr /\ NoHist /\ UNCHANGED created
 
 \* 1411 delInputHashes
 BuInv1 ==
   /\ Running("bu") /\ pc = "check"
-  /\ inp[B(CurP)] # BuildInputs(CurP)
+  /\ (inp[B(CurP)] # BuildInputs(CurP) \/ Forced)
   /\ inp' = [inp EXCEPT ![B(CurP)] = IF "NoInvalidateBeforeRun" \in Weak THEN @ ELSE NONE]
   /\ pc' = "inv2" /\ Flow /\ WS /\ UNCHANGED <<res, dst, vid>> /\ Knobs /\ Ctr /\ NoHist /\ UNCHANGED created
 
@@ -381,13 +406,13 @@ PkStart ==
 
 PkSkip ==
   /\ Running("pk") /\ pc = "check"
-  /\ inp[D(CurP)] = PackageInputs(CurP)
+  /\ inp[D(CurP)] = PackageInputs(CurP) /\ ~Forced
   /\ NextStep /\ WS /\ ST /\ Knobs /\ Ctr /\ NoHist /\ UNCHANGED created
 
 \* 1673-1674
 PkInv1 ==
   /\ Running("pk") /\ pc = "check"
-  /\ inp[D(CurP)] # PackageInputs(CurP)
+  /\ (inp[D(CurP)] # PackageInputs(CurP) \/ Forced)
   /\ inp' = [inp EXCEPT ![D(CurP)] = IF "NoInvalidateBeforeRun" \in Weak THEN @ ELSE NONE]
   /\ pc' = "inv2" /\ Flow /\ WS /\ UNCHANGED <<res, dst, vid>> /\ Knobs /\ Ctr /\ NoHist /\ UNCHANGED created
 PkInv2 ==
@@ -434,7 +459,7 @@ Done == mode = "idle" /\ ninv = MaxInv /\ UNCHANGED vars
 Next ==
   \/ Edit \/ Begin \/ End \/ Kill
   \/ PrepStart \/ PrepInval \/ PrepPrune \/ PrepReset \/ PrepDone
-  \/ CoStart \/ CoReason \/ CoStore \/ CoForge \/ CoRun \/ CoRunFail \/ CoRunKilled \/ CoCommit \/ CoSetRes
+  \/ CoStart \/ CoReason \/ CoBoUpdate \/ CoStore \/ CoForge \/ CoRun \/ CoRunFail \/ CoRunKilled \/ CoCommit \/ CoSetRes
   \/ BuStart \/ BuInval \/ BuPrune \/ BuReset \/ BuSkip \/ BuInv1 \/ BuInv2 \/ BuCommit3First
   \/ BuRunOk \/ BuRunFail \/ BuRunKilled \/ BuC1 \/ BuC2 \/ BuC3
   \/ PkStart \/ PkSkip \/ PkInv1 \/ PkInv2 \/ PkRunOk \/ PkRunFail \/ PkRunKilled \/ PkC1 \/ PkC2 \/ PkC3
